@@ -112,6 +112,7 @@ def check(ctx):
     _r3(ctx)
     # ------------------------------------------------------------------ R4
     _r4(ctx, cf)
+    r4_scratch_fully_written(ctx, cf)
 
 
 def _decl_ids(node):
@@ -150,7 +151,22 @@ def _region(ctx, cf, rel, fname, fn, d):
                                     loopvars.add(v.get("name"))
                     break
     if not loopvars:
-        ctx.undecided("C08-R1", ln, rel, fname, "region at %s" % where, "no work-shared loop found in the parallel region")
+        # hand-written distribution of the frame loop: accepted only when start and stride are the thread number and the
+        # size of the team that is actually running (both read inside the region)
+        region_calls = {C.callee_name(n) for n in C.walk(d) if n["kind"] == "CallExpr"}
+        loops = [n for n in C.walk(d) if n["kind"] == "ForStmt"]
+        outer = loops[0] if loops else None
+        txt = re.sub(r"\s", "", " ".join(C.text(k) for k in C.kids(outer)[:3])) if outer is not None else ""
+        inside_ids = _decl_ids(d)
+        stride_names = set(re.findall(r"\+=(\w+)", txt))
+        stride_inside = bool(stride_names) and all(any(nm == v for v in inside_ids.values()) for nm in stride_names)
+        if outer is not None and "omp_get_num_threads" in region_calls and "omp_get_thread_num" in region_calls and stride_inside:
+            ctx.holds("C08-R1", ln, rel, fname, "region at %s" % where, "frame loop distributed by hand over omp_get_thread_num()/omp_get_num_threads() read inside the region")
+        else:
+            ctx.violated("C08-R1", ln, rel, fname, "region at %s" % where,
+                         "the frame loop inside the parallel region is not work-shared (`omp for`) and its start/stride do not come from omp_get_thread_num()/omp_get_num_threads() "
+                         "of the running team (loop header: %s; calls in region: %s): frames are skipped or computed twice when the team is smaller or larger than assumed"
+                         % (txt[:80], sorted(x for x in region_calls if x and x.startswith("omp_"))))
         return
     desc0 = "region %s" % os.path.basename(where.split(":")[0])
     if "reduction" in cl:
@@ -491,3 +507,36 @@ def _r4(ctx, cf):
     calls = [C.callee_name(n) for n in C.kids(C.kids(loop)[-1]) if n["kind"] == "CallExpr"]
     ctx.decide(calls[:1] == ["ks_assign_hydrogens"], "C08-R4", C.line(loop), rel, "kabsch_sander", "hydrogens re-assigned first in every frame", "",
                "ks_assign_hydrogens is not the first statement of the frame loop: hydrogen positions of another frame are used")
+
+
+def _must_store(n, target):
+    """True when every path through statement n executes `<vec>.store(target)` (or assigns through target)."""
+    k = n["kind"]
+    if k == "CompoundStmt":
+        return any(_must_store(c, target) for c in C.kids(n))
+    if k == "IfStmt":
+        ks = C.kids(n)
+        return len(ks) > 2 and _must_store(ks[1], target) and _must_store(ks[2], target)
+    if k in ("ForStmt", "WhileStmt"):
+        return False
+    for c in C.walk(n):
+        if c["kind"] == "CXXMemberCallExpr" and (C.callee_name(c) or "") == "store":
+            a = C.call_args(c)
+            if a and C.root_var(a[0])[0] == target:
+                return True
+    return False
+
+
+def r4_scratch_fully_written(ctx, cf):
+    """hcoords outlives the frame loop of kabsch_sander: ks_assign_hydrogens must store the position of every residue it does not
+    skip on every path, otherwise the value of the previous frame (or of the allocation) is read by ks_donor_acceptor."""
+    rel = "mdtraj/geometry/src/geometry.cpp"
+    fn = cf.function(rel, "ks_assign_hydrogens")
+    ctx.analysed_functions.add(rel + ":ks_assign_hydrogens")
+    guards = [n for n in C.walk(C.body_of(fn)) if n["kind"] == "IfStmt" and re.sub(r"\s", "", C.text(C.kids(n)[0])).startswith("(!skip[")]
+    if len(guards) < 2:
+        raise AnalysisError("ks_assign_hydrogens(): the per-residue `if (!skip[..])` guards were not found")
+    for g in guards:
+        ok = _must_store(C.kids(g)[1], "hcoords")
+        ctx.decide(ok, "C08-R4", C.line(g), rel, "ks_assign_hydrogens", "hcoords written on every path under %s" % re.sub(r"\s", "", C.text(C.kids(g)[0])), "",
+                   "a path through the branch for a complete residue stores no hydrogen position: the scratch vector, allocated once for all frames, keeps the value of the previous frame")
